@@ -434,6 +434,40 @@ func checkC20(c *Ctx) Meta {
 			c.OK("C20-EXACT", name+":no-floating-point", c.Pos(f.Pos()), fmt.Sprintf("%d functions on the path, no float/complex value or float conversion", n))
 		}
 	}
+	// and nothing else in the API renders an amount through floating point: no function of the api package
+	// converts a chain amount to a float (Amount.ToMASS/ToUnit) or formats/parses floats as decimal text
+	{
+		var bad []string
+		n := 0
+		for fn := range c.AllFuncs {
+			if pkgOf(fn) != pkgAPI {
+				continue
+			}
+			n++
+			fn := fn
+			allInstrs(fn, func(in ssa.Instruction) {
+				id := calleeID(in)
+				switch {
+				case strings.HasSuffix(id, "massutil.Amount).ToMASS"), strings.HasSuffix(id, "massutil.Amount).ToUnit"),
+					id == "strconv.FormatFloat", id == "strconv.ParseFloat":
+					bad = append(bad, FuncName(fn)+" calls "+shortID(id)+" at "+c.Pos(in.Pos()))
+				}
+				if cv, ok := in.(*ssa.Convert); ok {
+					if tb, isB := cv.Type().Underlying().(*types.Basic); isB && tb.Info()&types.IsFloat != 0 {
+						if strings.HasSuffix(cv.X.Type().String(), "massutil.Amount") {
+							bad = append(bad, FuncName(fn)+" converts an Amount to "+tb.Name()+" at "+c.Pos(cv.Pos()))
+						}
+					}
+				}
+			})
+		}
+		sort.Strings(bad)
+		if len(bad) > 0 {
+			c.Bad("C20-EXACT", "api:amounts-never-through-floats", "", strings.Join(bad, "; ")+": amounts of 2^53 maxwell and more lose their low digits, so the reported value is not the exact one and parses back to a different amount")
+		} else {
+			c.OK("C20-EXACT", "api:amounts-never-through-floats", "", fmt.Sprintf("%d functions of the api package, none converts an amount to a float or formats/parses float text", n))
+		}
+	}
 
 	return Meta{
 		Explanation: "Provenance of the handler served and of the decision function, edge-cut dominance inside the 403 wrapper, constant evaluation of the LAN table and of the gRPC listen address, a census of the decision function's allow edges against the four admitted kinds, clone comparison of the binding-target construction with the chain library's, and an effect check (no floating point) on the amount path.",
@@ -538,6 +572,32 @@ func checkBindingTarget(c *Ctx) {
 	// every value returned as a binding target is a function of all three parameters (no path — a
 	// cache hit, a default — returns a target computed for other arguments)
 	{
+		// the script is built in memory of its own: no append onto a package-level slice (a shared backing
+		// array is overwritten by a concurrent listing request between the append and the encoding, so a
+		// workspace is listed with another key's target)
+		{
+			key := "getBindingTarget:script-built-in-its-own-memory"
+			shared := ""
+			allInstrs(f, func(in ssa.Instruction) {
+				cl, ok := in.(*ssa.Call)
+				if !ok {
+					return
+				}
+				if b, isB := cl.Call.Value.(*ssa.Builtin); !isB || b.Name() != "append" || len(cl.Call.Args) == 0 {
+					return
+				}
+				for v := range backSlice(cl.Call.Args[0]).vals {
+					if g, isG := v.(*ssa.Global); isG {
+						shared = g.Name() + " at " + c.Pos(cl.Pos())
+					}
+				}
+			})
+			if shared != "" {
+				c.Bad(rule, key, c.Pos(f.Pos()), "the binding-target script is appended onto the package-level slice "+shared+": concurrent listing requests share its backing array and overwrite each other's bytes before they are encoded")
+			} else {
+				c.OK(rule, key, c.Pos(f.Pos()), "every append in getBindingTarget extends a value made in the call")
+			}
+		}
 		key := "getBindingTarget:every-result-depends-on-key-type-and-size"
 		bad := ""
 		n := 0
